@@ -104,7 +104,33 @@ def run_search(binpath, harness, timeout=900):
     return {"reproduced": False, "detail": "witness search gave no result: %s" % p.stderr[-300:]}
 
 
-def run_replayer(binpath, harness, vals, timeout=120):
+CERT_BIN = [None]
+
+
+def build_cert(ov):
+    """the real varlink-certification server, built from the same source copy (C19 native replay)"""
+    if CERT_BIN[0]:
+        return CERT_BIN[0]
+    tgt = os.path.join(overlay.scratch_root(), "cert-tgt")
+    env = dict(os.environ)
+    env["CARGO_NET_OFFLINE"] = "true"
+    with Lock(os.path.join(overlay.scratch_root(), "cert-tgt.lock")):
+        p = subprocess.run(["cargo", "build", "--offline", "--quiet", "-p", "varlink-certification", "--target-dir", tgt],
+                           cwd=ov, env=env, stdout=subprocess.PIPE, stderr=subprocess.STDOUT, text=True)
+        if p.returncode != 0:
+            log("certification server build failed:\n" + p.stdout[-1500:])
+            return None
+        dst = os.path.join(os.path.dirname(ov), "varlink-certification")
+        shutil.copy(os.path.join(tgt, "debug", "varlink-certification"), dst)
+    CERT_BIN[0] = dst
+    return dst
+
+
+def run_replayer(binpath, harness, vals, timeout=120, ov=None):
+    if harness.startswith("c19_") and ov:
+        b = build_cert(ov)
+        if b:
+            os.environ["VERIF_CERT_BIN"] = b
     flat = []
     for v in vals:
         flat.extend(v)
@@ -279,7 +305,7 @@ def main(argv):
                     continue
                 rep = None
                 for vals in r["playback"]:
-                    rep = run_replayer(replayer, r["harness"], vals)
+                    rep = run_replayer(replayer, r["harness"], vals, ov=ov)
                     rep["vals"] = vals
                     if rep.get("reproduced"):
                         break
@@ -331,7 +357,7 @@ def do_replay_file(path, ov, workdir):
     if replayer is None:
         log("replayer build failed:\n" + err[-2000:])
         return 2
-    rep = run_replayer(replayer, d["harness"], d["vals"])
+    rep = run_replayer(replayer, d["harness"], d["vals"], ov=ov)
     log(json.dumps(rep, indent=1))
     if rep.get("reproduced"):
         log("VIOLATION property=%s replay=%s" % (d["property"], path))
@@ -355,6 +381,7 @@ def write_evidence(pid, tier, seed, spec, results, info, wall, violations, known
             solver_time += r["verification_time_s"]
         samples.append({
             "harness": r["harness"],
+            "engine": "z3 on an encoding generated from the source (smt/%s)" % h["script"] if h.get("engine") == "smt" else "kani/cbmc",
             "verdict": r["verdict"],
             "reason": r.get("reason", ""),
             "bounds": h.get("bounds", ""),
@@ -389,7 +416,10 @@ def write_evidence(pid, tier, seed, spec, results, info, wall, violations, known
                      "CBMC properties (harness oracle assertions, Rust panics/overflow/bounds checks, unwinding "
                      "assertions) decided by the solver over all values of the symbolic inputs within the bounds; "
                      "distinct_nontrivial = number of distinct harness oracle assertions proved plus reachability "
-                     "covers satisfied (a cover that is not satisfiable makes the run inconclusive)."),
+                     "covers satisfied (a cover that is not satisfiable makes the run inconclusive).") + (
+                " Samples whose engine is z3 are SMT queries over an encoding regenerated from /repo's source on every run "
+                "(smt/); there evaluations counts solver queries." if any(r["spec"].get("engine") == "smt" for r in results)
+                and not spec.get("rule") else ""),
             "samples": samples,
             "exhaustive": False,
             "functions_encoded": fns,
